@@ -148,6 +148,17 @@ CHECKS["C10"] = dict(
     design="§3 C10",
 )
 
+CHECKS["C17"] = dict(
+    category="fault_enumeration",
+    text="Through the real command (click CliRunner on main, forked process, cwd = project): every single violation of the documented configuration constraints (paths, 8 name options x 6 bad names, comment mode, "
+         "scalar without type, unset header variable, missing section, base client class, target file type), invalid syntax in schema / queries / one file of a directory, 23 schema mutations confirmed invalid by "
+         "graphql-core, one invalid operation per specified validation rule (25 rules, each confirmed by running that rule alone) x pre-existing target states {absent, empty dir, previous generation, foreign file}; "
+         "oracle: exit code, exception class and message, byte+mtime snapshot of the target. Positive: valid configurations (unknown keys, legacy section, no strategy argument) accepted; settings readers do not mutate the dict.",
+    note="Trusted: graphql-core validate_schema / specified_rules as the definition of invalid input; click CliRunner.",
+    technique="exhaustive single-fault enumeration over configuration constraints, schema-validity classes and validation rules x pre-existing directory states through the real command",
+    design="§3 C17",
+)
+
 PENDING_REASON = "check not built yet in this round (work in progress, see DESIGN.md §6)"
 NOT_APPLICABLE = {}
 
